@@ -1,4 +1,4 @@
-use std::collections::HashSet;
+use std::collections::{BTreeSet, HashSet};
 use std::fmt::{Debug, Display, Formatter};
 
 use enum_as_inner::EnumAsInner;
@@ -33,7 +33,7 @@ pub struct LineageInput {
     pub table: Ident,
 }
 
-#[derive(Debug, Clone, Eq, PartialEq, Serialize, Deserialize, EnumAsInner, JsonSchema)]
+#[derive(Clone, Eq, PartialEq, Serialize, Deserialize, EnumAsInner, JsonSchema)]
 pub enum LineageColumn {
     Single {
         name: Option<Ident>,
@@ -52,6 +52,29 @@ pub enum LineageColumn {
         #[serde(serialize_with = "sorted_set")]
         except: HashSet<String>,
     },
+}
+
+// Not derived: `except` is a hash set, and this text ends up in error messages.
+impl Debug for LineageColumn {
+    fn fmt(&self, f: &mut Formatter<'_>) -> std::fmt::Result {
+        match self {
+            LineageColumn::Single {
+                name,
+                target_id,
+                target_name,
+            } => f
+                .debug_struct("Single")
+                .field("name", name)
+                .field("target_id", target_id)
+                .field("target_name", target_name)
+                .finish(),
+            LineageColumn::All { input_id, except } => f
+                .debug_struct("All")
+                .field("input_id", input_id)
+                .field("except", &except.iter().collect::<BTreeSet<_>>())
+                .finish(),
+        }
+    }
 }
 
 pub fn sorted_set<S: Serializer, V: Serialize + Ord>(
